@@ -16,7 +16,10 @@ struct Obj {
 	int ext_type = 0;
 	int64_t ts_sec = 0; uint32_t ts_nsec = 0;   // Timestamp
 };
-inline uint64_t be(const unsigned char* p, int n) { uint64_t v = 0; for (int i = 0; i < n; i++) v = (v << 8) | p[i]; return v; }
+inline uint64_t be2(const unsigned char* p) { return ((uint64_t)p[0] << 8) | p[1]; }
+inline uint64_t be4(const unsigned char* p) { return (be2(p) << 16) | be2(p + 2); }
+inline uint64_t be8(const unsigned char* p) { return (be4(p) << 32) | be4(p + 4); }
+inline uint64_t be(const unsigned char* p, int n) { return n == 1 ? p[0] : n == 2 ? be2(p) : n == 4 ? be4(p) : be8(p); }
 // Decode the header of one object at p (n bytes available).  For scalars hdr is the total length.
 inline Obj decode(const unsigned char* p, size_t n) {
 	Obj o;
